@@ -15,6 +15,7 @@ RULE = ("cases = (local dims in 1..4, n<=5, N<=144) x every non-empty subset S (
         "inputs with entries near the type limits, 9..13 subsystems, repeat calls with the same index objects, one cvxpy Variable traced under "
         "several factorisations and after a new value")
 CASE_TIMEOUT = {"quick": 240, "thorough": 3000}
+THOROUGH_REPEAT = 5  # the thorough tier runs its randomised case kinds this many times (new inputs each time)
 ASSUMPTIONS = [
     "reference model = einsum contraction of the (d..., d...) tensor; exact for integer dtype, 1e-9 relative otherwise",
     "cvxpy: only Variable operands are accepted by the library; .value of the returned expression is compared on an assigned value",
